@@ -129,8 +129,9 @@ def slp_eval(case):
     if exc is not None:
         res["impl"] = exc
         impl_c = "None"
-        if exc != "RuntimeError":
-            res["fail"].append(f"unexpected {exc}")
+        if exc != "RuntimeError" or not (eos is not None and T == 0):
+            # the only modelled error: eos set and a zero-length time dimension
+            res["fail"].append(f"sequence_log_probs raised {exc} on a valid input")
     else:
         if tuple(out.shape) != tuple(shape[:d] + shape[d + 1:]):
             res["fail"].append(f"output shape {tuple(out.shape)}")
